@@ -32,6 +32,12 @@ def cases(tier, seed):
     n = 90 if tier == "quick" else 20000
     for i in range(n):
         out.append({"name": "retry.script/%d" % i, "kind": "gen", "idx": i})
+    # three or four submissions in back-off at the same time, due in every order relative to their queue position
+    import itertools as _it
+    for k, perm in enumerate(_it.permutations([0.3, 1.5, 0.6])):
+        out.append({"name": "retry.waiters/3/%d" % k, "kind": "waiters", "delays": list(perm)})
+    for k, perm in enumerate(list(_it.permutations([0.3, 1.5, 0.6, 1.0]))[::3]):
+        out.append({"name": "retry.waiters/4/%d" % k, "kind": "waiters", "delays": list(perm)})
     cap = None
     for victim, trig in (("worker", "fail0"), ("worker", "submit"), ("client", "fail0"), ("client", "complete1"), ("client", "submit")):
         for second in ("complete1", "fail1", "submit", "timer", "fail0"):
@@ -39,6 +45,11 @@ def cases(tier, seed):
                 continue
             out.append({"name": "retry.sweep/%s/%s|%s" % (victim, trig, second), "kind": "sweep", "victim": victim,
                         "trigger": trig, "second": second, "cap": cap})
+            if trig == "fail0":
+                # the same with submission 0 already in its second attempt: its next back-off (1.0 s) is longer than the
+                # first back-off (0.5 s) of a submission failing meanwhile
+                out.append({"name": "retry.sweep-deep/%s/%s|%s" % (victim, trig, second), "kind": "sweep", "victim": victim,
+                            "trigger": trig, "second": second, "cap": cap, "deep": True})
     return out
 
 
@@ -47,9 +58,14 @@ def gen_policy(rng):
         return {"kind": "exc", "max_attempts": rng.choice([1, 2, 3, 4, 6]), "sleep": rng.choice([0, 0.125, 0.5, 1.0, 2.0]),
                 "exponent": rng.choice([1.0, 1.5, 2.0, 3.0]), "max_sleep": rng.choice([0.25, 1.0, 4.0, 120]),
                 "base": rng.choice(list(BASES))}
-    return {"kind": "custom", "delays": [rng.choice([0, 0.125, 0.25, 1.0, 3.0]) for _ in range(6)],
-            "max_attempts": rng.choice([2, 3, 5]), "retry_on_value": rng.random() < 0.4,
-            "raise_in": rng.choice([None, None, "should_retry", "sleep_time"]), "raise_at": rng.choice([1, 2, 3])}
+    pol = {"kind": "custom", "delays": [rng.choice([0, 0.125, 0.25, 1.0, 3.0]) for _ in range(6)],
+           "max_attempts": rng.choice([2, 3, 5]), "retry_on_value": rng.random() < 0.4,
+           "raise_in": rng.choice([None, None, "should_retry", "sleep_time"]), "raise_at": rng.choice([1, 2, 3])}
+    if rng.random() < 0.5:
+        # every submission has its own back-off table (e.g. a Retry-After taken from the failure)
+        pol["per_sub_delays"] = [[rng.choice([0.125, 0.25, 0.6, 1.0, 1.5, 3.0]) for _ in range(6)] for _ in range(4)]
+        pol["raise_in"] = None
+    return pol
 
 
 def gen_script(rng, policy):
@@ -110,6 +126,7 @@ class RW(object):
         self.subs = []
         self.escaped = []
         self.pol_objs = []
+        self.sub_policies = {}
         if policy["kind"] == "exc":
             self.ex = ctx.own(ME.Executors.with_retry(
                 self.me, max_attempts=policy["max_attempts"], sleep=policy["sleep"], exponent=policy["exponent"],
@@ -118,9 +135,18 @@ class RW(object):
             self.ex = ctx.own(ME.Executors.with_retry(self.me, self.make_policy(None)))
         self.t0 = instr.vnow()
 
+    def pol_of(self, sid):
+        """Policy parameters of one submission (custom policies are per submission: delays may differ)."""
+        if self.policy["kind"] == "custom" and self.policy.get("per_sub_delays") and sid is not None:
+            if sid not in self.sub_policies:
+                tables = self.policy["per_sub_delays"]
+                self.sub_policies[sid] = dict(self.policy, delays=tables[sid % len(tables)])
+            return self.sub_policies[sid]
+        return self.policy
+
     def make_policy(self, sid):
         ME = instr.ME
-        policy = self.policy
+        policy = self.pol_of(sid)
         w = self
         counters = {"sr": 0, "st": 0}
 
@@ -257,7 +283,7 @@ class RW(object):
                           "%s sub %d: ending attempt %d let %r escape from the library's done-callback into the completing thread" % (label, sid, n, e))
         for rec in self.subs:
             steps = self.scripts[rec["sid"]]
-            n_exp, delays, sr_exp, st_exp = model(pol, steps)
+            n_exp, delays, sr_exp, st_exp = model(self.pol_of(rec["sid"]), steps)
             atts = rec["attempts"]
             sid = rec["sid"]
             where = "%s sub %d placement=%s" % (label, sid, site)
@@ -362,6 +388,34 @@ def run_gen(case, res):
         end(ctx)
 
 
+def run_waiters(case, res):
+    begin("vt")
+    ctx = Ctx()
+    try:
+        delays = case["delays"]
+        policy = {"kind": "custom", "delays": [0] * 6, "max_attempts": 3, "retry_on_value": False, "raise_in": None, "raise_at": 1,
+                  "per_sub_delays": [[d] * 6 for d in delays]}
+        n = len(delays)
+        scripts = [[("raise", "A"), ("raise", "B"), ("ret",)] for _ in range(n)]
+        w = RW(ctx, policy, scripts, [0] * n)
+        for i in range(n):
+            a = ctx.actor("S%d" % i, w.submit).go()
+            if drive([a], use_time=False) != "ok" or a.error is not None:
+                raise Inconclusive("submit failed: %r" % (a.error,))
+        w.run()
+        res.execs += 1
+        check_common(res)
+        if LM.deadlocks:
+            return
+        if w.judge(res, case["name"]):
+            res.key("waiters", str(delays))
+        res.sample({"backoff_per_submission": delays,
+                    "attempt_times": {r["sid"]: [(round(a["arr_t"] - w.t0, 4), None if a["end_t"] is None else round(a["end_t"] - w.t0, 4))
+                                                  for a in r["attempts"]] for r in w.subs}}, limit=1)
+    finally:
+        end(ctx)
+
+
 class RScenario(object):
     POLICY = {"kind": "exc", "max_attempts": 3, "sleep": 0.5, "exponent": 2.0, "max_sleep": 120, "base": "Exception"}
 
@@ -377,6 +431,13 @@ class RScenario(object):
         w.submit()
         instr.advance(0.01)
         w.scan()
+        if self.case.get("deep"):
+            for due, rec, a in w.open_attempts():
+                if rec["sid"] == 0:
+                    w.finish_attempt(rec, a)
+                    break
+            instr.advance(0.6)
+            w.scan()
         return ctx
 
     def victim_role(self, ctx):
@@ -420,6 +481,8 @@ class RScenario(object):
 
 
 def run_case(case, res):
+    if case["kind"] == "waiters":
+        return run_waiters(case, res)
     if case["kind"] == "gen":
         run_gen(case, res)
     else:
